@@ -966,9 +966,9 @@ func generateStreams(g *rand.Rand, thorough bool, emit func(*stream)) {
 				case 2, 3:
 					d, lc = int64(len(pl))+1+int64(g.Intn(5)), "len+k"
 				case 4, 5:
-					d, lc = maxMsg+int64(g.Intn(3))-1, "around-max"
-					if d == maxMsg-1 && !thorough {
-						d = maxMsg
+					d, lc = maxMsg+int64(g.Intn(2)), "around-max"
+					if thorough && g.Intn(10) == 0 {
+						d = maxMsg - 1 // a permitted 1 GiB allocation
 					}
 				}
 			} else if g.Intn(10) == 0 && len(pl) > 0 {
